@@ -441,6 +441,12 @@ func (w *World) act(rs *reqState, id string, c *rux.Context, a Action) {
 		c.Req = c.Req.WithContext(context.WithValue(c.Req.Context(), swapKey{}, id))
 	case "yield":
 		taskYield(-1)
+	case "selfracy": // self-test control: an unsynchronised access shared by all tasks
+		selfRacyVar++
+	case "selfsync": // self-test control: the same under a real mutex
+		selfMu.Lock()
+		selfSyncVar++
+		selfMu.Unlock()
 	case "obsrec":
 		v, ok := c.Get(rux.CTXRecoverResult)
 		add("rec", fmt.Sprintf("%t:%v", ok, v))
